@@ -36,7 +36,12 @@ fn decorate(lib: &mut LefLibrary, code: u64) {
     if code & 1 != 0 { lib.version = Some(LefDecimal::new(58, 1)); }
     if code & 2 != 0 { lib.bus_bit_chars = Some(('[', ']')); lib.divider_char = Some('/'); }
     if code & 4 != 0 { lib.names_case_sensitive = Some(LefOnOff::On); lib.no_wire_extension_at_pin = Some(LefOnOff::Off); }
-    if code & 8 != 0 { lib.manufacturing_grid = Some(LefDecimal::new(5, 3)); lib.use_min_spacing = Some(LefOnOff::On); }
+    if code & 8 != 0 {
+        // decimals with up to 28 significant digits: a detour through a double would change them
+        lib.manufacturing_grid = Some(match code % 5 { 0 => LefDecimal::new(5, 3), 1 => LefDecimal::from_i128_with_scale(1234567890123456789, 19), 2 => LefDecimal::from_i128_with_scale(10000000000000000001, 19),
+            3 => LefDecimal::from_i128_with_scale(79228162514264337593543950335, 0), _ => LefDecimal::from_i128_with_scale(-314159265358979323846264338, 26) });
+        lib.use_min_spacing = Some(LefOnOff::On);
+    }
     if code & 16 != 0 { lib.units = Some(LefUnits { database_microns: LefDbuPerMicron::try_new(LefDecimal::new(2000, 0)).ok(), ..Default::default() }); }
     if code & 32 != 0 {
         for m in lib.macros.iter_mut() {
